@@ -60,9 +60,11 @@ def main():
         sh("git worktree prune", REPO)
         shutil.rmtree(base, ignore_errors=True)
     json.dump({"repo_head": head, "results": table,
-               "all_detected": all(any(v.get("detected") for v in r.values()) for r in table.values() if "error" not in r)},
+               "all_detected": all(any(v.get("detected") for v in r.values()) for r in table.values() if "error" not in r),
+               "known_gaps": sorted(d for d in table if json.load(open(os.path.join(seeded, d, "meta.json"))).get("undetected"))},
               open(path, "w"), indent=1, sort_keys=True)
-    missed = [d for d, r in table.items() if "error" in r or not any(v.get("detected") for v in r.values())]
+    known_gaps = {d for d in table if json.load(open(os.path.join(seeded, d, "meta.json"))).get("undetected")}
+    missed = [d for d, r in table.items() if d not in known_gaps and ("error" in r or not any(v.get("detected") for v in r.values()))]
     print("missed or not applicable:", missed)
 
 
